@@ -11,9 +11,19 @@ reads the `*SR` dump that the harness prints right after `proj.Parse`.
 namespace GeomV.C08
 open GeomV
 
+/-- the names `registerTrans` registers (lower-cased; the harness prints ' ' as '~') -/
 def pnameOf : String → PName
-  | "longlat" => .longlat | "merc" => .merc | "lcc" => .lcc | "aea" => .aea | "eqdc" => .eqdc
-  | "tmerc" => .tmerc | "utm" => .utm | "krovak" => .krovak | _ => .other
+  | "longlat" => .longlat
+  | "merc" | "mercator" | "popular~visualisation~pseudo~mercator" | "mercator_1sp"
+  | "mercator_auxiliary_sphere" => .merc
+  | "lcc" | "lambert~tangential~conformal~conic~projection" | "lambert_conformal_conic"
+  | "lambert_conformal_conic_2sp" => .lcc
+  | "aea" | "albers_conic_equal_area" | "albers" => .aea
+  | "eqdc" | "equidistant_conic" => .eqdc
+  | "tmerc" | "transverse_mercator" | "transverse~mercator" => .tmerc
+  | "utm" | "universal~transverse~mercator~system" => .utm
+  | "krovak" => .krovak
+  | _ => .other
 
 def hexF (s : String) : Option Float := (parseU64 s).map Float.ofBits
 
